@@ -26,7 +26,7 @@ Inductive op :=
 | OGive (a : N) (n : nat)      (* n permits *)
 | OOpen (a : N)                (* open the gate *)
 | OStart (a : N)               (* a's parked pre_start returns Ok: a becomes Running; settle *)
-| OFailStart (a : N)           (* a's parked pre_start returns Err: a dies while Starting; settle *)
+| OFailStart (a : N)           (* settle; a's parked pre_start returns Err: a dies while Starting; settle *)
 | ODrop.                       (* every handle of the port is dropped (no settle) *)
 
 Record scen := mkScen {
@@ -182,7 +182,7 @@ Module X1.
                       end) (h_dying h) (h_nsub h) (h_actors h))
     | OOpen a => set_h c (mkH (updf (h_gate h) a None) (h_dying h) (h_nsub h) (h_actors h))
     | OStart a => settle cap p fuel (fire cap c (LStart a))
-    | OFailStart a => settle cap p fuel (fire cap c (LStop a))
+    | OFailStart a => settle cap p fuel (fire cap (settle cap p fuel c) (LStop a))
     | ODrop => fire cap c LClose
     end.
 
@@ -191,9 +191,22 @@ Module X1.
 
   Definition trace (cap : nat) (sc : scen) : list lab := let '(_, _, acc) := exec cap sc in rev acc.
 
+  (* converter invocations per subscription = number of LCast steps of its forwarder *)
+  Definition conv_calls (cap : nat) (sc : scen) : list nat :=
+    let '(h, _, acc) := exec cap sc in
+    map (fun s => length (filter (fun l => match l with LCast s' => s' =? N.of_nat s | _ => false end) acc))
+        (seq 0 (N.to_nat (h_nsub h))).
+
   Definition result (cap : nat) (sc : scen) : list (list N) :=
     let '(h, st, _) := exec cap sc in
     map (fun s => received _ st (N.of_nat s)) (seq 0 (N.to_nat (h_nsub h))).
+
+  (* one execution, both views *)
+  Definition both (cap : nat) (sc : scen) : list (list N) * list nat :=
+    let '(h, st, acc) := exec cap sc in
+    (map (fun s => received _ st (N.of_nat s)) (seq 0 (N.to_nat (h_nsub h))),
+     map (fun s => length (filter (fun l => match l with LCast s' => s' =? N.of_nat s | _ => false end) acc))
+         (seq 0 (N.to_nat (h_nsub h)))).
 End X1.
 
 (* ------------------------------------------------------------------ V2 *)
@@ -280,7 +293,7 @@ Module X2.
                       end) (h_dying h) (h_nsub h) (h_actors h))
     | OOpen a => set_h c (mkH (updf (h_gate h) a None) (h_dying h) (h_nsub h) (h_actors h))
     | OStart a => settle ad p fuel (fire ad c (LStart a))
-    | OFailStart a => settle ad p fuel (fire ad c (LStop a))
+    | OFailStart a => settle ad p fuel (fire ad (settle ad p fuel c) (LStop a))
     | ODrop => fire ad c LClose
     end.
 
@@ -296,10 +309,22 @@ Module X2.
     | _ :: t => sub_actors t
     end.
 
+  (* converter invocations per subscription = number of sends the port task makes to it *)
+  Definition conv_calls (ad : bool) (sc : scen) : list nat :=
+    let '(h, _, acc) := exec ad sc in
+    map (fun s => length (filter (fun l => match l with LSend s' => s' =? N.of_nat s | _ => false end) acc))
+        (seq 0 (N.to_nat (h_nsub h))).
+
   Definition result (ad : bool) (sc : scen) : list (list N) :=
     let '(_, st, _) := exec ad sc in
     map (fun sa => received _ st (N.of_nat (fst sa)) (snd sa))
         (combine (seq 0 (length (sub_actors (sc_ops sc)))) (sub_actors (sc_ops sc))).
+  Definition both (ad : bool) (sc : scen) : list (list N) * list nat :=
+    let '(h, st, acc) := exec ad sc in
+    (map (fun sa => received _ st (N.of_nat (fst sa)) (snd sa))
+         (combine (seq 0 (length (sub_actors (sc_ops sc)))) (sub_actors (sc_ops sc))),
+     map (fun s => length (filter (fun l => match l with LSend s' => s' =? N.of_nat s | _ => false end) acc))
+         (seq 0 (N.to_nat (h_nsub h)))).
 End X2.
 
 (* ------------------------------------------------------------------ oracle *)
@@ -401,6 +426,38 @@ Definition check_C16_obs (v2 nd : bool) (cap : nat) (sc : scen) (o : obs) : bool
   | Done res => check_ops v2 nd cap sc (sc_ops sc) res
   | Blocked => false
   end.
+
+(* "A subscriber that has stopped is dropped": the inputs on which the converter of each
+   subscription was invoked (observed by the harness closures).  They are a sub-sequence of what
+   was published after the subscription, and after the receiver has been stopped (OKill a: settle,
+   stop, settle) the converter runs on at most one further message that it maps to Some — the one
+   whose failed cast / send ends the subscription.  (Only judged when all payloads are distinct.) *)
+Fixpoint after_kill (a : N) (ops : list op) : list op :=
+  match ops with
+  | [] => []
+  | OKill a' :: t => if a' =? a then t else after_kill a t
+  | _ :: t => after_kill a t
+  end.
+
+Definition check_calls_sub (a : N) (c : cspec) (after : list op) (calls : list N) : bool :=
+  let post := pubs_ops (after_kill a after) in
+  is_sublist calls (pubs_ops after)
+  && Nat.leb (length (filter (fun m => existsb (N.eqb m) post
+                                        && match cv c m with Some _ => true | None => false end) calls)) 1.
+
+Fixpoint check_calls_ops (ops : list op) (calls : list (list N)) : bool :=
+  match ops with
+  | [] => match calls with [] => true | _ => false end
+  | OSub a c :: t =>
+      match calls with
+      | k :: calls' => check_calls_sub a c t k && check_calls_ops t calls'
+      | [] => false
+      end
+  | _ :: t => check_calls_ops t calls
+  end.
+
+Definition check_C16_calls (sc : scen) (calls : list (list N)) : bool :=
+  if nodupb (pubs_ops (sc_ops sc)) then check_calls_ops (sc_ops sc) calls else true.
 
 (* v2 port created with allow_duplicate_subscription = false *)
 Definition check_C16_nodup (cap : nat) (sc : scen) (res : list (list N)) : bool :=
